@@ -103,6 +103,7 @@ func (t *treePipeline) mkdir(r io.Reader, cfg *config) error {
 
 	splitStream, errcsl := split(ctx, r)
 	rootStream, errcr := newRootGeneratorPipeline().generate(ctx, splitStream)
+	t.grower.enableValidation()
 	growStream, errcg := t.grower.grow(ctx, rootStream)
 	errcm := t.mkdirer.mkdir(ctx, growStream)
 	return t.handlePipelineErr(ctx, errcsl, errcr, errcg, errcm)
